@@ -147,6 +147,14 @@ func c06Exec(c c06Case, limit int64) (c06Obs, *Verdict) {
 			n = 0
 		}
 		cv.cmd("DATA")
+		// (in lines well under any line length limit)
+		for n > 62 {
+			cv.raw(append(bytes.Repeat([]byte("p"), 62), '\r', '\n'))
+			n -= 64
+		}
+		if n < 0 {
+			n = 0
+		}
 		cv.raw(bytes.Repeat([]byte("p"), n))
 		cv.raw([]byte("\r\n.\r\n"))
 		cv.cmd("MAIL FROM:<s@x>")
